@@ -329,8 +329,10 @@ def synthetic_peephole(ctx, n):
                 r = rng.random()
                 spec.append(f"J{rng.randint(0, 3)}" if r < 0.45 else f"L{rng.randint(0, 3)}" if r < 0.8 else "O")
         items = []
+        names = {"0": "f_block1", "1": "f_block10", "2": "F_block1", "3": "f_block"}      # prefixes / case variants of each other
         for t in spec:
-            items.append(Label(f"l{t[1:]}") if t[0] == "L" else NearJump(f"l{t[1:]}") if t[0] == "J" else Comment("x"))
+            nm = names.get(t[1:], "l" + t[1:])
+            items.append(Label(nm) if t[0] == "L" else NearJump(nm) if t[0] == "J" else Comment("x"))
         sink = Sink()
         ps = PeepHoleStream(sink)
         for it in items:
